@@ -165,6 +165,61 @@ def check(run):
                     continue
                 run.violation("%s: %s" % (sql[:160], d), {"kind": "impl-vs-sqlite", "db": path, "table": t, "sql": sql, "indexes": idx, "diff": d, "sqlittle": f[1], "sqlite": {k: v for k, v in sq.items()}})
             run.nontrivial(sql)
+    # the Coq model of db/schema.go (Model/Schema.v) on the same definitions: sqlite_master's texts, tokenized by the
+    # implementation, parsed by the translated parser, interpreted by the model - against db.Schema()
+    mcases, tl = [], []
+    for i, (path, kept, views) in enumerate(dbs):
+        conn = sqlite3.connect(path)
+        for t, sql, idx in kept:
+            rows = conn.execute("SELECT type, sql FROM sqlite_master WHERE lower(tbl_name)=lower(?) AND sql IS NOT NULL AND sql != '' ORDER BY rowid", (t,)).fetchall()
+            tsql = [r[1] for r in rows if r[0] == "table"]
+            isql = [r[1] for r in rows if r[0] == "index"]
+            if len(tsql) != 1 or any(ord(ch) > 127 for ch in "".join(tsql + isql)):
+                continue
+            mcases.append((i, t, tsql[0], isql))
+        conn.close()
+    for n, (i, t, tsql, isql) in enumerate(mcases):
+        for k, q in enumerate([tsql] + isql):
+            tl.append(("%d/%d" % (n, k), "tokens %s" % q.encode().hex()))
+    _, timpl, _ = ops.run_cmds("c10-tokens", tl, sides=("impl",))
+    xl, ml = [], []
+    cur = None
+    for n, (i, t, tsql, isql) in enumerate(mcases):
+        if cur != i:
+            xl.append(("xopen%d/%d" % (i, n), "db %s" % dbs[i][0])); cur = i
+        xl.append(("x%d" % n, "schemax %s" % hl.hx(t)))
+        parts = []
+        for k in range(1 + len(isql)):
+            o = (timpl.get("%d/%d" % (n, k)) or ["tokens err"])[0]
+            parts.append(o[len("tokens ok"):].strip() or "-" if o.startswith("tokens ok") else "!")
+        if parts[0] == "!":
+            parts[0] = "-"
+        ml.append(("x%d" % n, "mschema " + "|".join(parts)))
+    _, ximpl, _ = ops.run_cmds("c10-schemax", xl, sides=("impl",))
+    mres, _, xmodel = ops.run_cmds("c10-mschema", ml, sides=("model",))
+    dist["model_cases"] = 0
+    def same_dump(a, b):
+        """dumps equal, a '?' default of the model (a real literal: ParseFloat is not modelled) matching anything"""
+        if a == b:
+            return True
+        fa, fb = a.split(";"), b.split(";")
+        if len(fa) != len(fb) or fa[:2] + fa[3:] != fb[:2] + fb[3:]:
+            return False
+        ca, cb = fa[2].split(","), fb[2].split(",")
+        return len(ca) == len(cb) and all(x == y or (y.endswith(":?") and x.rsplit(":", 1)[0] == y.rsplit(":", 1)[0]) for x, y in zip(ca, cb))
+    for n, (i, t, tsql, isql) in enumerate(mcases):
+        a = (ximpl.get("x%d" % n) or ["?"])[0]
+        b = (xmodel.get("x%d" % n) or ["?"])[0]
+        run.count(); dist["model_cases"] += 1
+        if a.startswith("schema err") and b == "schema err":
+            continue
+        fa, fb = a.split(" "), b.split(" ")
+        if len(fa) == 3 and len(fb) == 3 and same_dump(fa[1], fb[1]) and fa[2] == fb[2]:
+            continue
+        run.violation("Model/Schema.v and db.Schema() differ on %s" % tsql[:160],
+                      {"no_failing_input_found": True, "broken": "correspondence Model/Schema.v vs db/schema.go", "sql": tsql, "indexes": isql, "impl": a, "model": b})
+    if mres["model"][0] != 0:
+        run.violation("modelrun died on mschema: %s" % mres["model"][2][-300:], {"no_failing_input_found": True, "broken": "model execution"})
     # known findings are replayed on their own statements
     kpath = os.path.join(wd, "known.db")
     conn = sqlfmt.new_db(kpath, 1024)
